@@ -13,7 +13,7 @@ META = {
                "thorough": "<=8 samples, <=4 blocks"},
     "outside": ["numpy's Generator being a stream (normal(size=a) followed by normal(size=b) equals normal(size=a+b)): stub contract, spot-validated concretely on every run", "values of the filter coefficients (C18)"],
     "stubs": ["np.random.default_rng(seed) -> stream u(seed,k) of fresh symbols with a cursor; unseeded -> a stream of its own", "scipy.signal.lfilter -> documented transposed direct-form-II recurrence for n>=1, ARBITRARY final state for an empty input (observed library behaviour)", "lfilter_zi -> arbitrary state", "_DEFAULT_BUFFER_SIZE -> 3"],
-    "assumptions": [],
+    "assumptions": ["module-level block/buffer-size constants of speckit.noise (integers in [1024, 2^31): _DEFAULT_BUFFER_SIZE and any the code adds) have the value 3 in the symbolic run AND in the replay, so that the code's own chunk boundaries are crossed by the short requests a run can cover; a violation is therefore a violation of the code at that block size"],
 }
 
 
@@ -45,6 +45,15 @@ class SymRng:
             return self._draw(1)[0] * scale + loc
         n = int(size)
         return oarr([u * scale + loc for u in self._draw(n)])
+
+    def standard_normal(self, size=None, dtype=None, out=None):
+        # Generator.normal(loc, scale, n) = loc + scale * standard_normal(n) on the same stream (checked on the real library by contract/library)
+        if out is not None:
+            flat = self._draw(int(out.size))
+            for i, idx in enumerate(rnp.ndindex(out.shape)):
+                out[idx] = flat[i]
+            return out
+        return self.normal(0.0, 1.0, size)
 
     def random(self, size=None):
         if size is None:
@@ -90,10 +99,22 @@ class _SignalNS:
 _G = {}
 
 
+SMALL = 3
+
+
+def size_constants():
+    """module-level integer constants of speckit.noise that are block/buffer sizes (1024 <= value < 2**31): the symbolic run and
+    the replay both use the value 3 for them, so that the code's own chunk boundaries fall inside the few samples a run can cover"""
+    import speckit.noise as Nz
+    return sorted(k for k, v in vars(Nz).items() if isinstance(v, int) and not isinstance(v, bool) and 1024 <= v < 2 ** 31)
+
+
 def sym_noise():
     import speckit.noise as Nz
     NP = NumpyShim(random=_RandomNS)
-    G = clone_module(Nz, dict(np=NP, signal=_SignalNS, lfilter=lfilter_stub, _DEFAULT_BUFFER_SIZE=3))
+    over = dict(np=NP, signal=_SignalNS, lfilter=lfilter_stub)
+    over.update({k: SMALL for k in size_constants()})
+    G = clone_module(Nz, over)
     return G
 
 
@@ -168,20 +189,22 @@ def ob_cascade(W, nsec, blocks):
 
 
 class _small_buffer:
-    """replay with the same small buffer size as the symbolic run (module constant _DEFAULT_BUFFER_SIZE)"""
+    """replay with the same small block/buffer sizes as the symbolic run (module constants, see size_constants)"""
     def __init__(self, W):
         self.W = W
 
     def __enter__(self):
         if not self.W.sym:
             import speckit.noise as Nz
-            self.old = Nz._DEFAULT_BUFFER_SIZE
-            Nz._DEFAULT_BUFFER_SIZE = 3
+            self.old = {k: getattr(Nz, k) for k in size_constants()}
+            for k in self.old:
+                setattr(Nz, k, SMALL)
 
     def __exit__(self, *a):
         if not self.W.sym:
             import speckit.noise as Nz
-            Nz._DEFAULT_BUFFER_SIZE = self.old
+            for k, v in self.old.items():
+                setattr(Nz, k, v)
 
 
 def ob_stream(W, kind, blocks, init_filter):
@@ -206,6 +229,11 @@ def _ob_stream(W, kind, blocks, init_filter):
 
 
 def ob_seed(W, kind):
+    with _small_buffer(W):
+        return _ob_seed(W, kind)
+
+
+def _ob_seed(W, kind):
     G = sym_noise() if W.sym else None
     a, b = mk_gen(W, G, kind, 5), mk_gen(W, G, kind, 5)
     c = mk_gen(W, G, kind, 6)
@@ -222,20 +250,31 @@ def ob_seed(W, kind):
 
 def ob_get_sample(W, kind, m):
     """m single samples == the first m samples of the stream (buffer refills are block requests of the stream)"""
-    import speckit.noise as Nz
     G = sym_noise() if W.sym else None
-    if not W.sym:
-        old = Nz._DEFAULT_BUFFER_SIZE
-        Nz._DEFAULT_BUFFER_SIZE = 3
-    try:
+    with _small_buffer(W):
         g1, g2 = mk_gen(W, G, kind, 3), mk_gen(W, G, kind, 3)
         singles = [g1.get_sample() for _ in range(m)]
         nblk = -(-m // 3) * 3
         whole = g2.get_series(nblk)
         W.goal("get_sample-run=stream-prefix", _eq_arrays(W, singles, list(whole)[:m]))
-    finally:
-        if not W.sym:
-            Nz._DEFAULT_BUFFER_SIZE = old
+
+
+def ob_get_sample_interleaved(W, kind, other, pattern):
+    """two live generators consumed through get_sample in an interleaved pattern ('a' = the generator under test, 'b' = the other
+    one: another kind/seed, or a same-seed twin that is NOT read in lock-step): each still delivers its own stream"""
+    G = sym_noise() if W.sym else None
+    with _small_buffer(W):
+        ga = mk_gen(W, G, kind, 3)
+        gb = mk_gen(W, G, other, 3 if other == kind else 4)
+        ref_a, ref_b = mk_gen(W, G, kind, 3), mk_gen(W, G, other, 3 if other == kind else 4)
+        got = {"a": [], "b": []}
+        for ch in pattern:
+            got[ch].append((ga if ch == "a" else gb).get_sample())
+        for ch, ref in (("a", ref_a), ("b", ref_b)):
+            m = len(got[ch])
+            if m:
+                whole = ref.get_series(-(-m // 3) * 3)
+                W.goal("interleaved get_sample: generator %s delivers its own stream" % ch, _eq_arrays(W, got[ch], list(whole)[:m]))
 
 
 def ob_rng_contract(W):
@@ -245,6 +284,10 @@ def ob_rng_contract(W):
         r1, r2 = rnp.random.default_rng(9), rnp.random.default_rng(9)
         a = rnp.concatenate([r1.normal(0.0, 2.0, size=s) for s in splits]); b = r2.normal(0.0, 2.0, size=sum(splits))
         ok = ok and rnp.array_equal(a, b)
+    r1, r2 = rnp.random.default_rng(9), rnp.random.default_rng(9)
+    buf = rnp.empty(3)
+    r2.standard_normal(out=buf)
+    ok = ok and bool(rnp.allclose(r1.normal(0.5, 2.0, size=3), 0.5 + 2.0 * buf, rtol=1e-15, atol=0)) and bool(rnp.array_equal(r1.normal(0.0, 1.0, size=2), r2.standard_normal(2)))
     W.goal("Generator.normal is a stream (real numpy)", ok)
     from scipy import signal
     y, zf = signal.lfilter([0.5], [1.0, -0.25], rnp.array([1.0, 2.0, 3.0]), zi=rnp.array([0.75]))
@@ -275,4 +318,6 @@ def obligations(tier):
         obs.append({"name": "seed/%s" % kind, "fn": "ob_seed", "params": {"kind": kind}})
         for m in ((1, 4, 7) if tier == "quick" else (1, 3, 4, 7, 10)):
             obs.append({"name": "get_sample/%s/m%d" % (kind, m), "fn": "ob_get_sample", "params": {"kind": kind, "m": m}, "weight": m})
+        for other, pat in ((("white" if kind != "white" else "red"), "abababab"), (kind, "aabbbbbaa"), (("red" if kind != "red" else "pink"), "abbbbab")):
+            obs.append({"name": "get_sample-interleaved/%s+%s/%s" % (kind, other, pat), "fn": "ob_get_sample_interleaved", "params": {"kind": kind, "other": other, "pattern": pat}, "weight": 8})
     return obs
